@@ -435,6 +435,10 @@ func fallbackDeriveKey(passphrase []byte, keyLen int) []byte {
 	}
 
 	key := make([]byte, keyLen)
+	if len(passphrase) == 0 {
+		// no key material to stretch: the all-zero key never opens a sealed file
+		return key
+	}
 	copy(key, passphrase)
 	for i := len(passphrase); i < keyLen; i++ {
 		key[i] = passphrase[i%len(passphrase)] ^ byte(i)
